@@ -823,24 +823,32 @@ func ruleOp2Table(p *Prog, r *Result) {
 		isBlank := func(c int64) bool {
 			return c == ' ' || c == '\t' || c == '\n' || c == '\v' || c == '\f' || c == '\r'
 		}
-		// the scanner and the word classifier agree on what a blank is: buildToken trims blanks off a word without
-		// moving its offset, so every character strings.TrimSpace removes must end a word in the scanner
+		// the scanner alone decides where a word begins and ends: the word classifier takes the word as it is. Any
+		// trimming there (strings.TrimSpace also removes the multi-byte Unicode blanks, which the byte-wise scanner
+		// can never treat as separators) changes the text without moving the offset that was recorded for it
 		if bt := p.Func("buildToken"); bt != nil {
-			trims := false
-			allInstrs(bt, func(in ssa.Instruction) {
-				if c, ok := in.(*ssa.Call); ok && p.calleeName(&c.Call) == "strings.TrimSpace" {
-					trims = true
+			var trims []string
+			for f := range p.Reach([]*ssa.Function{bt}, nil) {
+				if !p.InPkg(f) {
+					continue
 				}
-			})
-			if trims {
-				var missing []string
-				for _, b := range []int64{' ', '\t', '\n', '\v', '\f', '\r'} {
-					if !chars[b] {
-						missing = append(missing, fmt.Sprintf("%q", rune(b)))
+				allInstrs(f, func(in ssa.Instruction) {
+					if c, ok := in.(*ssa.Call); ok {
+						n := p.calleeName(&c.Call)
+						if strings.HasPrefix(n, "strings.Trim") || n == "strings.Fields" || strings.HasPrefix(n, "bytes.Trim") {
+							trims = append(trims, n+" at "+p.InstrPos(in))
+						}
 					}
-				}
-				r.add(len(missing) == 0, "blanks", p.Pos(fn.Pos()), fmt.Sprintf("every blank that buildToken trims off a word is a word separator of the scanner (not separators: %v): a blank counted into a word leaves the word's offset on the blank", missing))
+				})
 			}
+			sort.Strings(trims)
+			var missing []string
+			for _, b := range []int64{' ', '\t', '\n', '\v', '\f', '\r'} {
+				if !chars[b] {
+					missing = append(missing, fmt.Sprintf("%q", rune(b)))
+				}
+			}
+			r.add(len(trims) == 0 && len(missing) == 0, "blanks", p.Pos(fn.Pos()), fmt.Sprintf("the six ASCII blanks separate words in the scanner (not separators: %v) and the word classifier does not trim the word it is given (trimming calls: %v): a character removed from a word's text leaves the word's recorded offset on that character", missing, trims))
 		}
 		var cs []int64
 		for c := range chars {
@@ -1041,6 +1049,23 @@ func ruleOp2Table(p *Prog, r *Result) {
 			_, fl, _, ok := loadedField(v)
 			return ok && fl == "Query"
 		}
+		// a function takes part in the query pipeline when it can hold query text: a string parameter, or a receiver
+		// with a Query field (a lexer made elsewhere - to ask how a name would be read - lexes no query)
+		holdsQuery := func(f *ssa.Function) bool {
+			for _, pa := range f.Params {
+				if bt, isB := pa.Type().Underlying().(*types.Basic); isB && bt.Kind() == types.String {
+					return true
+				}
+				if st, ok := deref(pa.Type()).Underlying().(*types.Struct); ok {
+					for i := 0; i < st.NumFields(); i++ {
+						if st.Field(i).Name() == "Query" {
+							return true
+						}
+					}
+				}
+			}
+			return false
+		}
 		nq := 0
 		for _, f := range p.Funcs {
 			qi := 0
@@ -1054,7 +1079,7 @@ func ruleOp2Table(p *Prog, r *Result) {
 					}
 				case *ssa.Call:
 					g := x.Call.StaticCallee()
-					if g != nil && (g == nl || g == np || g == p.Func("NewOptimizer")) && len(x.Call.Args) > 0 {
+					if g != nil && (g == nl || g == np || g == p.Func("NewOptimizer")) && len(x.Call.Args) > 0 && holdsQuery(f) {
 						nq++
 						qi++
 						r.add(isQueryText(x.Call.Args[0]), fmt.Sprintf("query|pass|%s->%s#%d", p.FName(f), g.Name(), qi), p.InstrPos(in), "the text handed on for lexing/parsing is the caller's text itself")
